@@ -21,9 +21,29 @@ class AckFun:
     """Variable-arity uninterpreted function by Ackermann constraints (equal arguments => equal result)."""
 
     def __init__(self, name, nout=1):
+        # result variables are named after the function: two AckFun objects alive on the same path must not share a name
+        c = cur()
+        if c is not None:
+            used = c.scratch.setdefault("ackfun_names", {})
+            k = used.get(name, 0)
+            used[name] = k + 1
+            if k:
+                name = f"{name}~{k}"
         self.name = name
         self.nout = nout
         self.apps = []  # (args_terms, [result Syms])
+
+    @staticmethod
+    def shared(name, nout=1):
+        """The path-global instance of a function (same function for every caller on this path)."""
+        c = cur()
+        reg = c.scratch.setdefault("ackfun_shared", {})
+        if (name, nout) not in reg:
+            reg[(name, nout)] = AckFun(name, nout)
+        return reg[(name, nout)]
+
+    def __deepcopy__(self, memo):
+        return self  # a function, not state
 
     def __call__(self, args):
         ctx = cur()
